@@ -231,26 +231,17 @@ pub fn decode(g: &Graph, prefix: &str) -> Result<String, String> {
     for n in &g.nodes {
         let id = id_of(&n.name)?;
         let label = attr(&n.attrs, "label").ok_or("node without label")?;
-        let color = attr(&n.attrs, "color");
-        let (kind, tid) = match color {
-            Some("blue") => {
-                if label != id.to_string() {
-                    return Err(format!("start node label {:?}", label));
-                }
-                (1, 0)
-            }
-            Some("red") => {
-                let want = format!("{} T", id);
-                let t = label.strip_prefix(&want).and_then(|s| s.parse::<usize>().ok()).ok_or(format!("accepting label {:?}", label))?;
-                (2, t)
-            }
+        // the kind of a node is read from its label and number only (colours, shapes and other
+        // attributes are cosmetics): `<id> T<tid>` = accepting, `<id>` on node 0 = start, else plain
+        let want = format!("{} T", id);
+        let (kind, tid) = match label.strip_prefix(&want).and_then(|s| s.parse::<usize>().ok()) {
+            Some(t) => (2, t),
             None => {
                 if label != id.to_string() {
                     return Err(format!("node label {:?} for node {}", label, id));
                 }
-                (0, 0)
+                (if id == 0 { 1 } else { 0 }, 0)
             }
-            Some(c) => return Err(format!("unknown colour {}", c)),
         };
         nodes.push((id, kind, tid));
     }
